@@ -8,6 +8,14 @@ NA={
  "C18":"Static well-formedness of emitted text, a pure function of the machine configuration; no schedule, clock or fault involved (DESIGN.md §4).",
 }
 CLAIMS={
+ "C05":("exploration",
+  "Random .basm sources (control-flow graphs with labels and a declared entry, macros incl. nested/repeated/labelled calls, mov pseudo-instructions, literals in five notations, several CPs wired with fan-out) are assembled by the real basm under the canonical and K perturbed map-iteration orders, validated by an independent well-formedness validator and simulated; external output streams must be prefixes of what a direct interpretation of the source produces and must not stay silent where the source produces output; acceptance and the machine must not depend on iteration order.",
+  "Trusted: the basmsrc reference interpreter (written from the property statement), prompt environment agents. Macros without arguments only; `mov r, <number>` is not generated (needs a chooser option).",
+  "deterministic simulation: assembler under seeded map-order schedules + simulated machine vs reference interpretation of the source","DESIGN.md §3 C05"),
+ "C15":("exploration",
+  "Random simbox rule lists over every documented rule form with add/suspend/reactivate/delete/save-reload histories: print/parse round trip, and the simulation (the real cmd/bondmachine main run in-process under the seeded scheduler, a call-by-call re-drive of its loop, and SinglePipelineSimulate) must inject and report exactly what a rule predictor derives from the active rules and a rule-free reference trace; suspended rules must leave the run byte-identical.",
+  "Trusted: the rules reference model written from docs/simbox-rules.md, the re-driven loop being checked byte-for-byte against the real main. Ten documented-but-unimplemented behaviours are recorded as known findings.",
+  "deterministic simulation of the real tick loop under the seeded scheduler against a rule predictor; history-based rule-list model","DESIGN.md §3 C15"),
  "C02":("exploration",
   "Random bond graphs with Kahn programs are assembled by the real basm, the whole HDL file set is generated and executed in vsim, the same machine is simulated in bondmachine.VM, each under its own seeded environment timing; external output streams must agree prefix-wise in both the disciplined and the free I/O regime, both worlds must keep running after stalls stop, and the elaborated top-level netlist must connect exactly the bonded endpoints with received = conjunction of the bonded inputs' received lines.",
   "Trusted: vsim, envsim agents, the Kahn reference (used to say which world deviates). Environment assumption: on outputs whose received is a conjunction over several consumers the environment returns to zero as promptly as processors do.",
